@@ -1,10 +1,10 @@
 # C20 -- see DESIGN.md section 5
 PROP = {
     "props_v": "Props/C20.v",
-    "extra_v": ["TimeslotRun.v"],
+    "extra_v": ["TimeslotRun.v", "ServerRun.v"],
     "gen_bins": ["prod"],
     "gen_obligations": ["c20_genesis@ConstsProd", "c20_extraction_complete@ConstsProd", "c20_cadence_inequality@ConstsProd"],
-    "suites": [("prod", "timeslot")],
+    "suites": [("prod", "timeslot"), ("test", "reports")],
     "assumptions": [
         "rotation literals (3200/432/4032/2016) are read syntactically from the anchored function bodies; their behavioural effect is pinned by the C01/C03 suites",
         "schedule theorem assumes the rotation thread wakes at least every P slots and a triggered rotation finishes within D slots (D is a parameter; the theorem covers every D up to the computed slack)",
